@@ -729,6 +729,36 @@ def run_child(entry: str, args: dict, root: str, target: str, src_root: str, pla
             "harness_error": harness_error}
 
 
+def run_inproc(entry: str, args: dict, root: str, target: str, src_root: str, plan: dict | None = None):
+    """Same as run_child but without a fork (for plans that do not kill): the interposer is installed, the entry point
+    called, everything restored; handles the run leaked (a fault before close) are closed afterwards."""
+    preload()
+    plan = plan or {}
+    if plan.get("kill") is not None:
+        raise ValueError("kill plans need a child process")
+    ip = Interposer(root, target, src_root, plan).install()
+    res, herr = None, None
+    try:
+        ip.arm()
+        try:
+            res = call_entry(entry, args)
+        finally:
+            ip.disarm()
+    except BaseException as e:
+        if isinstance(e, (KeyboardInterrupt, SystemExit)):
+            raise
+        import traceback
+        herr = {"exc": type(e).__name__, "msg": str(e)[:300], "tb": traceback.format_exc()[-1500:]}
+    finally:
+        ip.uninstall()
+        for fd in list(ip.tracked_fds):
+            try:
+                _o["os.close"](fd)
+            except OSError:
+                pass
+    return {"result": res, "records": list(ip.records), "killed": False, "exit": 0, "harness_error": herr}
+
+
 # ------------------------------------------------------------------------------------------------------
 # Two (or more) writers in threads, file-system calls gated by a deterministic scheduler
 # ------------------------------------------------------------------------------------------------------
